@@ -2,6 +2,8 @@
 
 package modules
 
+import "sync/atomic"
+
 // VerifRemoveEventHooks removes the hooks that hookingModule registered on
 // eventModule's event and returns how many were removed. The C12 harness uses
 // it to take the asynchronous "config change -> update API keys" delivery out
@@ -30,3 +32,10 @@ func VerifRemoveEventHooks(eventModule, event, hookingModule string) int {
 	eh.hooks = kept
 	return n
 }
+
+// VerifMicroTasksRunning returns the number of micro tasks that have been
+// cleared to run and have not finished yet. The C12 harness waits for it to
+// drop to zero after a key import that schedules the asynchronous "api key
+// cleanup" micro task, so that the task's config.SetConfigOption never runs
+// concurrently with the next configuration step of the harness.
+func VerifMicroTasksRunning() int32 { return atomic.LoadInt32(microTasks) }
